@@ -106,6 +106,12 @@ def coq_expr(case, out):
 def predicate(case, out):
     if "error" in out:
         return ("driver-error", out["error"] + out.get("trace", "")[-300:])
+    for side in ("small", "big"):
+        d = out.get(side, {})
+        if d.get("phase_err", 0.0) > 1e-9:
+            return ("bloch-phase-value", f"{side} domain: get_bloch_phase differs from exp(i k L) by {d['phase_err']:.3e}")
+        if any(case.get("kvec", [0, 0, 0])) and not d.get("cplx", True):
+            return ("bloch-real-fields", f"{side} domain: a non-zero Bloch vector {case.get('kvec')} was declared but the fields were initialised real")
     if out["tile_err"] > 1e-12 * out["scale"]:
         if case.get("seam"):
             return ("nonuniform-seam-width-mismatch", f"non-uniform periodic axis with first width != last width: supercell differs from the tiled unit cell "
